@@ -417,7 +417,19 @@ let handle_line lineno line =
   | t :: _ when String.length t > 0 && t.[0] = '#' -> ()
   | _ -> if not (world_line lineno line toks) then report lineno line "UNKNOWN-LINE"
 
+(* --golden: recompute the golden list with the extracted code and compare with the kernel's values *)
+let golden_mode () =
+  let rec eq a b = match a, b with
+    | [], [] -> true
+    | x :: xs, y :: ys -> Model.Z.eqb x y && eq xs ys
+    | _, _ -> false in
+  let g = Model.golden () and e = Model.golden_expected () in
+  let n = List.length g in
+  if n > 0 && eq g e then (Printf.printf "GOLDEN ok values=%d\n" n; exit 0)
+  else (Printf.printf "GOLDEN MISMATCH computed=%d expected=%d\n" n (List.length e); exit 3)
+
 let () =
+  if Array.length Sys.argv > 1 && Sys.argv.(1) = "--golden" then golden_mode ();
   (try
     while true do
       let line = input_line stdin in
